@@ -119,6 +119,17 @@ def run(tier, seed):
     for i in range(n):
         base = g.program({"requests": True, "nsteps": 2, "nstrat": g.rng.choice([0, 1, 2, 2]), "p_post": 0.3,
                           "nonlinear": g.rng.random() < 0.5, "state_rates": g.rng.random() < 0.3})
+        # cumulative outputs that start at a later model time (a different code path from the plain cumulative sum)
+        t0_, h_ = gen.Fraction(base["times"][0]), gen.Fraction(base["times"][2])
+        for o in base["ops"]:
+            if o["op"] == "req" and o["req"]["type"] == "cum" and g.rng.random() < 0.6:
+                o["req"]["start"] = str(t0_ + g.rng.randint(0, int(nsteps(base))) * h_)
+        if i % 4 == 0 and not any(o["op"] == "req" and o["req"]["type"] == "cum" for o in base["ops"]):
+            srcs = [o["name"] for o in base["ops"] if o["op"] == "req"]
+            if srcs:
+                wl = [o for o in base["ops"] if o["op"] == "whitelist"]
+                base["ops"] = [o for o in base["ops"] if o["op"] != "whitelist"] + \
+                    [{"op": "req", "name": "cst", "save": True, "req": {"type": "cum", "source": srcs[0], "start": str(t0_ + h_)}}] + wl
         p, extra = parameterise_sites(base, g.rng)
         pv = dict(g.params_values(small=True), **extra)
         pv2 = dict(g.params_values(small=True), **extra)      # same structure-relevant values, other rates
